@@ -20,7 +20,7 @@ from ..common import Ctx
 LEVEL = "exploration"
 SHARDS = {"quick": 16, "thorough": 16}
 FLOOR = {"quick": 150, "thorough": 3000}
-REQUIRED_COUNTERS = ["tree_pairs_compared", "fresh_process_generations", "hash_seeds_distinct", "noop_reruns", "files_mtime_checked",
+REQUIRED_COUNTERS = ["noop_reruns_host_variants", "tree_pairs_compared", "fresh_process_generations", "hash_seeds_distinct", "noop_reruns", "files_mtime_checked",
                      "tamper_edit_checks", "tamper_delete_checks", "show_diffs_contract_evals", "explicit_core_layouts", "clock_shifted_runs", "prior_run_scenarios",
                      "spec_rewritten_in_place_scenarios"]
 RULE = ("clean documents biased to what makes order matter (many schemas/imports, several path variables, colliding operationIds, inline "
@@ -73,8 +73,9 @@ def digest(root: Path, tops: list[str], with_mtime: bool = False) -> dict:
     return out
 
 
-def fresh(ctx: Ctx, spec: Path, root: Path, pkg: str, core, hashseed: str, force=True, clock_shift=0) -> dict:
+def fresh(ctx: Ctx, spec: Path, root: Path, pkg: str, core, hashseed: str, force=True, clock_shift=0, env_extra: dict | None = None) -> dict:
     env = dict(os.environ)
+    env.update(env_extra or {})
     env["PYTHONHASHSEED"] = hashseed
     env["PYTHONPATH"] = str(common.VERIF_ROOT)
     args = {"spec": str(spec), "root": str(root), "pkg": pkg, "core": core, "force": force, "clock_shift": clock_shift}
@@ -222,6 +223,29 @@ def run_doc(ctx: Ctx, d: specgen.Doc, n: int, layout: tuple[str, str | None]) ->
         rec.violation("rerun:files_touched", feats, dict(case, variant="rerun"), f"{ch[:5]}")
     for b in _contract["bad"][n0:]:
         rec.violation("contract:show_diffs_verdict_wrong", feats, dict(case, variant="rerun"), b)
+    # host variations of the same no-op re-run, each in a fresh process: the temporary directory reached through a symbolic
+    # link (macOS: /var -> /private/var; TMPDIR=/some/link), and the project root itself reached through a symbolic link
+    real_tmp, link_tmp, link_root = work / "tmp-real", work / "tmp-link", work / "root-link"
+    real_tmp.mkdir()
+    link_tmp.symlink_to(real_tmp)
+    link_root.symlink_to(root0)
+    for variant, kw in (("tmpdir_through_symlink", {"root": root0, "env_extra": {"TMPDIR": str(link_tmp)}}),
+                        ("project_root_through_symlink", {"root": link_root, "env_extra": None})):
+        before = digest(root0, tops, with_mtime=True)
+        rv = fresh(ctx, spec, kw["root"], pkg, core, "0", force=False, env_extra=kw["env_extra"])
+        rec.count("noop_reruns_host_variants")
+        rec.case(dict(case, variant=f"non-force re-run, {variant}"), nontrivial=True)
+        if not rv.get("ok"):
+            rec.violation(f"rerun:up_to_date_output_reported_as_different:{variant}", feats, dict(case, variant=variant), (rv.get("error") or "")[:200])
+        elif digest(root0, tops, with_mtime=True) != before:
+            rec.violation(f"rerun:files_touched:{variant}", feats, dict(case, variant=variant), "")
+    # and a forced generation through the symlinked project root produces the same bytes
+    rv = fresh(ctx, spec, link_root, pkg, core, "0", force=True)
+    rec.count("tree_pairs_compared")
+    if rv.get("ok"):
+        dd = diff_trees(base, digest(root0, tops))
+        if dd:
+            rec.violation(f"determinism:project_root_through_symlink:{classify_changed(dd)}", feats, dict(case, variant="root symlink"), dd)
     # tampering: the non-force run must FAIL when the existing tree differs from what would be generated
     py_files = sorted(f for f in before if f.endswith(".py") and Path(root0, f).stat().st_size > 0)
     if core:
